@@ -6,6 +6,9 @@
 package main
 
 import (
+	"fmt"
+	"golang.org/x/crypto/ssh/agent"
+	"time"
 	"verifharness/core"
 	"verifharness/shimsim"
 )
@@ -42,5 +45,71 @@ func run(c *core.Ctx) {
 	}
 	for _, r := range shimsim.RunAll(pool, plans, 8) {
 		r.Emit(c)
+	}
+	overlapping(c, pool)
+}
+
+// overlapping: operations of different kinds overlap on a locked shim.  While an Unlock with a wrong passphrase is
+// waiting for the (slow) underlying agent, Close / List / Add arrive.  Each waits its turn; the shim is still locked
+// when it is served, so each is refused, nothing is disclosed or changed, and the right passphrase still unlocks.
+func overlapping(c *core.Ctx, pool *shimsim.Pool) {
+	for trial := 0; trial < c.N(4, 24); trial++ {
+		other := []string{"Close", "List", "Add", "Close"}[trial%4]
+		in := map[string]interface{}{"history": "Lock(pw); Unlock(wrong) takes 400 ms at the underlying agent; meanwhile " + other + "; Unlock(pw); List", "no_upstream": trial%2 == 1}
+		sim, err := shimsim.NewSim(pool, trial%2 == 1, []uint64{1, 2}, nil, nil)
+		if err != nil || !sim.Built {
+			c.Native("harness: cannot build a shim", in)
+			if sim != nil {
+				sim.Stop()
+			}
+			continue
+		}
+		func() {
+			defer sim.Stop()
+			if err := sim.Shim.Lock([]byte("pw")); err != nil {
+				c.Native("Lock on a fresh shim failed: "+err.Error(), in)
+				return
+			}
+			sim.Proxy.SetDelay(sim.Proxy.Count(), 400*time.Millisecond)
+			unlockErr := make(chan error, 1)
+			go func() { unlockErr <- sim.Shim.Unlock([]byte("wrong")) }()
+			time.Sleep(120 * time.Millisecond)
+			var oerr error
+			var listed int
+			switch other {
+			case "Close":
+				oerr = sim.Shim.Close()
+			case "List":
+				var ks []*agent.Key
+				ks, oerr = sim.Shim.List()
+				listed = len(ks)
+			case "Add":
+				oerr = sim.Shim.Add(agent.AddedKey{PrivateKey: pool.Keys[2].Priv, Comment: "x"})
+			}
+			uerr := <-unlockErr
+			bad := ""
+			switch {
+			case uerr == nil:
+				bad = "Unlock with a wrong passphrase succeeded"
+			case other == "Close" && oerr == nil:
+				bad = "Close on a locked shim returned nil (it overlapped an Unlock that was waiting for the underlying agent)"
+			case other == "Add" && oerr == nil:
+				bad = "Add on a locked shim returned nil"
+			case other == "List" && listed != 0:
+				bad = "List on a locked shim disclosed identities"
+			}
+			if bad == "" {
+				if err := sim.Shim.Unlock([]byte("pw")); err != nil {
+					bad = "after the overlap the right passphrase no longer unlocks: " + err.Error()
+				} else if ks, err := sim.Shim.List(); err != nil || len(ks) != 2 {
+					bad = fmt.Sprintf("after unlocking, the view before the lock is not restored: %d identities, err=%v", len(ks), err)
+				}
+			}
+			if bad != "" {
+				c.Native(bad, in)
+			} else {
+				c.NativeCheck(1)
+			}
+		}()
 	}
 }
